@@ -183,6 +183,46 @@ fn login_finish_case(ids_case: u8, has_ctx: bool, part: u8) {
     }
 }
 
+/// W3-early: the two exits of ClientLogin::finish that come before any unmasking — a reflected OPRF value, and a failing
+/// key-stretching function (which also shows *which* instance the step handed to the stretching: the caller's, or the
+/// default when none is passed). Cheap enough for every quick tier; the full step is W3.
+fn login_finish_early_case() {
+    let st = any_bytes::<69>();
+    let rb = any_bytes::<117>();
+    let pw = any_bytes::<2>();
+    let use_some = any_bool();
+    let tag = any_u8();
+    let Ok(state) = ClientLogin::<MW>::deserialize(&st) else { return };
+    let Ok(resp) = CredentialResponse::<MW>::deserialize(&rb) else { return };
+    ksf_reset([0u8; 8], true);
+    mke_reset(0);
+    let k = MKsf { tag };
+    let params = ClientLoginFinishParameters::<MW>::new(None, Identifiers::default(), if use_some { Some(&k) } else { None });
+    let r = state.finish(&pw, resp, params);
+    let reflected = st[1] == rb[0];
+    match r {
+        Ok(res) => {
+            check!(false, "login completes although the key-stretching function failed");
+            core::mem::forget(res);
+        }
+        Err(e) => {
+            if reflected {
+                check!(matches!(e, ProtocolError::ReflectedValueError), "reflection is reported as such");
+                check!(unsafe { KSF_CALLS } == 0, "nothing is computed on a reflected value");
+                cover!(true, "reflected");
+            } else {
+                check!(unsafe { KSF_CALLS } == 1, "the stretching function is evaluated exactly once");
+                check!(unsafe { KSF_LAST_TAG } == if use_some { tag } else { 0 }, "the instance handed to the stretching is the caller's, or the default when none is passed");
+                let out = spec::oprf_finalize(&pw, st[0], rb[0]);
+                check!(unsafe { KSF_LAST_LEN } == 8 && eq_bytes(unsafe { &KSF_LAST_IN }, &out), "the stretching function is applied to Finalize(password, blind, evaluation) with the password given to finish");
+                check!(unsafe { REC.calls } == 0, "no key exchange after a failed stretching");
+                cover!(use_some, "explicit instance");
+                cover!(!use_some, "default instance");
+            }
+        }
+    }
+}
+
 struct StartIn {
     seed: [u8; 8],
     sk: u8,
@@ -418,4 +458,9 @@ harnesses! {
     #[cfg_attr(kani, kani::stub(crate::opaque::unmask_response, crate::verif_kani::w_stubs::unmask))]
     #[cfg_attr(kani, kani::stub(crate::envelope::Envelope::open, crate::envelope::Envelope::verif_open_stub))]
     fn w3c_login_finish_ke_args [unwind = 120] { login_finish_case(1, true, 3); }
+
+    #[cfg_attr(kani, kani::stub(crate::opaque::get_password_derived_key, crate::verif_kani::w_stubs::gpdk))]
+    #[cfg_attr(kani, kani::stub(crate::opaque::unmask_response, crate::verif_kani::w_stubs::unmask))]
+    #[cfg_attr(kani, kani::stub(crate::envelope::Envelope::open, crate::envelope::Envelope::verif_open_stub))]
+    fn w3e_login_finish_early [unwind = 120] { login_finish_early_case(); }
 }
